@@ -121,6 +121,13 @@ fn build(ex: &mut Executor<NoEffect>, j: &J) -> Value {
     if j.get("nil").is_some() {
         return Value::nil();
     }
+    if let Some(c) = j.get("fn") {
+        let caps: Vec<Value> = c.as_array().unwrap().iter().map(|x| build(ex, x)).collect();
+        return Value::Function(0, std::sync::Arc::new(caps));
+    }
+    if let Some(r) = j.get("ref") {
+        return Value::Reference(r.as_u64().unwrap());
+    }
     panic!("bad value spec {j}");
 }
 
@@ -136,6 +143,7 @@ fn render(ex: &Executor<NoEffect>, v: &Value) -> J {
         },
         Value::Tuple(id, fs) if fs.is_empty() => json!({"nil": *id == 0, "tuple_id": id}),
         Value::Tuple(_, fs) => json!({"tuple": fs.iter().map(|x| render(ex, x)).collect::<Vec<_>>()}),
+        Value::Function(i, cs) => json!({"fn": cs.iter().map(|x| render(ex, x)).collect::<Vec<_>>(), "index": i}),
         other => json!({"other": format!("{:?}", other)}),
     }
 }
@@ -152,6 +160,52 @@ fn main() {
         let name = c.get("builtin").unwrap().as_str().unwrap().to_string();
         let mut ex: Executor<NoEffect> = Executor::new(registry.clone(), false, 0);
         let arg = build(&mut ex, c.get("arg").unwrap());
+        if name == "@transfer" {
+            // cross-heap transfer on the real code: build the value in heap A, extract, inject into a populated heap B,
+            // and render both ends (the driver compares them)
+            let spec = c.get("arg").unwrap().clone();
+            let reg2 = registry.clone();
+            let r = catch_unwind(AssertUnwindSafe(move || {
+                let mut a: Executor<NoEffect> = Executor::new(reg2.clone(), false, 0);
+                for k in 0..3u8 {
+                    a.allocate_binary(vec![0xA0 + k; 2]).unwrap();
+                }
+                let v = build(&mut a, &spec);
+                let sent = render(&a, &v);
+                let (wire, data) = match a.extract_heap_data(&v) {
+                    Ok(x) => x,
+                    Err(e) => return json!({"err": format!("extract: {:?}", e)}),
+                };
+                let mut b: Executor<NoEffect> = Executor::new(reg2, false, 1);
+                for k in 0..5u8 {
+                    b.allocate_binary(vec![0xB0 + k; 3]).unwrap();
+                }
+                let before: Vec<Vec<u8>> = (0..5).map(|i| b.get_heap_binary(i).unwrap().to_vec()).collect();
+                let landed = match b.inject_heap_data(wire, &data) {
+                    Ok(x) => x,
+                    Err(e) => return json!({"err": format!("inject: {:?}", e)}),
+                };
+                let got = render(&b, &landed);
+                let after: Vec<Vec<u8>> = (0..5).map(|i| b.get_heap_binary(i).unwrap().to_vec()).collect();
+                json!({"ok": {"same": sent == got && before == after, "sent": sent, "got": got, "receiver_untouched": before == after, "copies": data.len()}})
+            }));
+            let res = match r {
+                Ok(j) => j,
+                Err(p) => {
+                    let msg = p.downcast_ref::<String>().cloned().or_else(|| p.downcast_ref::<&str>().map(|s| s.to_string())).unwrap_or_default();
+                    json!({"panic": msg})
+                }
+            };
+            if stream {
+                use std::io::Write;
+                let mut so = std::io::stdout();
+                writeln!(so, "{}", serde_json::to_string(&res).unwrap()).unwrap();
+                so.flush().unwrap();
+            } else {
+                out.push(res);
+            }
+            continue;
+        }
         let f = registry.get_implementation(&name);
         let res = match f {
             None => json!({"missing": name}),
